@@ -49,7 +49,11 @@ let table : (string * schema) list = [
   "Language", language; "CostModel", costModel; "NetworkId", networkId; "Vkey", vkey; "AssetName", assetNameS;
   "PlutusScript", plutusScriptBytes; "MIRToStakeCredentials", mIRToStakeCredentials;
   "TransactionBodies", transactionBodies depth; "TransactionWitnessSets", transactionWitnessSets depth;
-  "TransactionUnspentOutput", transactionUnspentOutput depth ]
+  "TransactionUnspentOutput", transactionUnspentOutput depth;
+  "ScriptPubkey", scriptPubkey; "ScriptAll", scriptAll (nat_of_int 2); "ScriptAny", scriptAny (nat_of_int 2);
+  "ScriptNOfK", scriptNOfK (nat_of_int 2); "TimelockStart", timelockStart; "TimelockExpiry", timelockExpiry;
+  "AssetNames", assetNames; "GenesisHashes", genesisHashes; "ScriptHashes", scriptHashes; "RewardAddresses", rewardAddresses;
+  "TransactionMetadatumLabels", transactionMetadatumLabels; "BigNum", bigNum; "VersionedBlock", versionedBlock depth ]
 
 (* stream (ii) types: the schema of the form the API builds (e.g. header bodies are always built in the Praos form) *)
 let api_table : (string * schema) list = [
